@@ -51,7 +51,12 @@ def handleC17 (op : String) (input impl : Json) : Except String Json := do
     let viol :=
       (if resClass impl == "panic" then ["never-panics"] else []) ++
       (if hang then ["never-loops-forever"] else []) ++
-      (if alloc ≤ perByte * b.length + slack then [] else ["allocation-proportional-to-input"])
+      (if alloc ≤ perByte * b.length + slack then [] else ["allocation-proportional-to-input"]) ++
+      -- the store-level getter on the same bytes: never a panic, and an error exactly when the decoder errs
+      (match (fldD impl "getter" Json.null).getStr?.toOption with
+       | some "panic" => ["never-panics"]
+       | some g => if (g == "ok") == (resClass impl == "ok") || resClass impl == "panic" then [] else ["getter-agrees-with-decoder"]
+       | none => [])
     match modelDecode kind b with
     | some m =>
       let mj := jRes id m
